@@ -232,6 +232,35 @@ pub fn family(wtm: bool, men: &[(usize, u8)], with_rights: bool, with_ep: bool, 
     p
 }
 
+/// Like `family`, but with both kings on given concrete squares (quick-tier slices: the men under test
+/// keep symbolic squares, king moves and king-related attack sets become cheap).
+pub fn family_kings_at(wtm: bool, wk: u8, bk: u8, men: &[(usize, u8)], with_ep: bool, tag: &str) -> Pos {
+    let mut bb = [[0u64; 6]; 2];
+    bb[0][K] = bit(wk);
+    bb[1][K] = bit(bk);
+    let mut occ = bit(wk) | bit(bk);
+    let mut i = 0;
+    while i < men.len() {
+        let s: u8 = kani::any();
+        kani::assume(s < 64 && occ & bit(s) == 0);
+        occ |= bit(s);
+        let (c, k) = men[i];
+        if k == 1 {
+            kani::assume(s >= 8 && s < 56);
+        }
+        bb[c][(k - 1) as usize] |= bit(s);
+        i += 1;
+    }
+    let mut p = Pos { bb, wtm, rights: [false; 4], ep: NO_SQ, half: 0, full: 1 };
+    if with_ep {
+        p.ep = kani::any();
+        kani::assume(p.ep <= 64);
+    }
+    kani::assume(legal_position(&p));
+    print_pos(tag, &p);
+    p
+}
+
 /// Castling family: the mover's king and both rooks stand on their home squares (concrete), castling
 /// rights of the mover are symbolic, the opposing king and the opposing men of `opp` (kinds) stand on
 /// symbolic squares.
